@@ -155,8 +155,11 @@ theorem forward_secure (d : Nat) (p : Path) (t q : Nat) (ht : t < 2^d) (hq : q <
       · simp only [hq1, ↓reduceIte] at hpre
         have hu := material_under d (p ++ [.R]) (t - 2^d) s hs
         have hv := leafPath_under d (p ++ [.L]) q
-        exact not_both p _ _ hv hu (by
-          sorry)
+        -- s lies under p++[R], the leaf under p++[L]; s <+: leaf is impossible
+        obtain ⟨a, ha⟩ := List.IsPrefix.trans hu hpre
+        obtain ⟨b, hb⟩ := hv
+        have : (p ++ [Dir.R]) ++ a = (p ++ [Dir.L]) ++ b := by rw [ha, hb]
+        simp [List.append_assoc] at this
       · simp only [hq1, ↓reduceIte] at hpre
         exact ih _ _ _ (by omega) (by omega) s hs hpre
 end Spike.Kes
